@@ -66,6 +66,9 @@ def cases(tier, seed):
     out = []
     for p in progs:
         out.append({'prog': p, 'tier': tier})
+    # autoconvert off with user-placed searchable layers / mixed user-placed + auto-converted
+    for v in ('plain', 'pool', 'mixed'):
+        out.append({'hand': v, 'tier': tier})
     # head layers excluded by type
     for p in G.gen_base(1):
         if p['head']['kind'] != 'fcn':
@@ -73,11 +76,106 @@ def cases(tier, seed):
     return out
 
 
+def _hand_case(case, seed):
+    """autoconvert off / mixed: user-placed searchable layers (sequential, every consumer of a prunable tensor is searchable)"""
+    import itertools as it
+    from plinio.methods import PIT
+    from plinio.methods.pit.nn import PITConv1d, PITLinear
+    from plinio.methods.pit.nn.features_masker import PITFeaturesMasker, PITFrozenFeaturesMasker
+    from plinio.methods.pit.nn.timestep_masker import PITTimestepMasker
+    from plinio.methods.pit.nn.dilation_masker import PITDilationMasker
+    res = {'states': 0, 'transitions': 0, 'evals': 0, 'nontrivial': [], 'outcomes': set(), 'violations': []}
+    variant = case['hand']
+    torch.manual_seed(seed * 31 + 3)
+    L = 6
+
+    def pc(cin, cout, k):
+        return PITConv1d(nn.Conv1d(cin, cout, k), PITFeaturesMasker(cout), PITTimestepMasker(k), PITDilationMasker(k))
+
+    class M(nn.Module):
+        def __init__(self):
+            super().__init__()
+            self.pad0 = nn.ConstantPad1d((2, 0), 0.0)
+            self.c0 = pc(3, 4, 3)
+            self.mid = nn.MaxPool1d(2) if variant == 'pool' else nn.Dropout(0.1)
+            self.pad1 = nn.ConstantPad1d((1, 0), 0.0)
+            self.c1 = pc(4, 3, 2) if variant != 'mixed' else nn.Conv1d(4, 3, 2)
+            self.fc = PITLinear(nn.Linear(3 * (L // 2 if variant == 'pool' else L), 2), PITFrozenFeaturesMasker(2)) if variant != 'mixed' \
+                else nn.Linear(3 * L, 2)
+
+        def forward(self, x):
+            y = torch.relu(self.c0(self.pad0(x)))
+            y = self.mid(y)
+            y = torch.relu(self.c1(self.pad1(y)))
+            return self.fc(torch.flatten(y, 1))
+    model = M().eval()
+    x = torch.randn(3, 3, L)
+    with torch.no_grad():
+        y0 = model(x)
+    only = case.get('cfg')
+
+    def add(kind, msg, desc):
+        res['outcomes'].add(kind)
+        res['violations'].append({'kind': kind, 'sig': f'{kind}/user-placed-{variant}', 'msg': f'user-placed ({variant}) cfg={desc}: {msg}',
+                                  'case': dict({k: v for k, v in case.items() if k != 'cfg'}, cfg=desc)})
+    try:
+        pit = PIT(model, input_shape=(3, L), autoconvert_layers=(variant == 'mixed'), discrete_cost=True)
+    except Exception as e:
+        res.update(states=1, evals=1)
+        add('conversion-raises', f'{type(e).__name__}: {str(e)[:200]}', {})
+        res['outcomes'] = sorted(res['outcomes'])
+        return res
+    pit.eval()
+    c0, c1, fc = pit.seed.c0, pit.seed.c1, pit.seed.fc
+    mult = fc.in_features // 3
+    for m0 in it.product([1, 0], repeat=3):
+        for m1 in it.product([1, 0], repeat=2):
+            desc = {'c0': list(m0), 'c1': list(m1)}
+            if only is not None and only != desc:
+                continue
+            with torch.no_grad():
+                c0.out_features_masker.alpha.copy_(torch.tensor(list(m0) + [1.0]))
+                if type(c1.out_features_masker) is PITFeaturesMasker:
+                    c1.out_features_masker.alpha.copy_(torch.tensor(list(m1) + [1.0]))
+            res['states'] += 1
+            res['transitions'] += (3 - sum(m0)) + (2 - sum(m1))
+            res['evals'] += 1
+            own0 = [bool(b) for b in c0.features_mask.tolist()]
+            own1 = [bool(b) for b in c1.features_mask.tolist()]
+            want = {'c1': own0, 'fc': [b for b in own1 for _ in range(mult)]}
+            for name, layer in (('c1', c1), ('fc', fc)):
+                calc = layer.input_features_calculator
+                got = [bool(v) for v in calc.features_mask.tolist()]
+                if got != want[name] or abs(float(calc.features) - sum(want[name])) > 1e-4 or layer.summary()['in_features'] != sum(want[name]):
+                    add('calculator-mask', f'{name}: calculator mask {got} count {float(calc.features)} summary {layer.summary()["in_features"]}, '
+                                           f'alive features reaching it {want[name]}', desc)
+            try:
+                with torch.no_grad():
+                    exp = pit.export()
+                    exp.eval()
+                    y = exp(x)
+                if tuple(y.shape) != tuple(y0.shape):
+                    add('output-shape-changed', f'{tuple(y.shape)} vs {tuple(y0.shape)}', desc)
+                if exp.c1.in_channels != sum(own0) or exp.fc.in_features != sum(want['fc']):
+                    add('exported-in-features', f'exported c1.in_channels={exp.c1.in_channels}, fc.in_features={exp.fc.in_features}; alive {sum(own0)}, {sum(want["fc"])}', desc)
+                else:
+                    res['outcomes'].add('consistent')
+            except Exception as e:
+                add('exported-net-does-not-run', f'{type(e).__name__}: {str(e)[:200]}', desc)
+            if sum(m0) < 3 or sum(m1) < 2:
+                res['nontrivial'].append(f'hand/{variant}/{m0}/{m1}')
+    res['outcomes'] = sorted(res['outcomes'])
+    res['sample'] = {'hand': variant, 'masks': 'complete 2^3 x 2^2 lattice'}
+    return res
+
+
 def _excluded_consumes_pruned(prog, exp_in, excluded):
     return any(not all(exp_in.get(n, [True])) for n in excluded)
 
 
 def run_case(case, seed):
+    if case.get('hand'):
+        return _hand_case(case, seed)
     prog = case['prog']
     tier = case.get('tier', 'quick')
     b = bounds(tier)
